@@ -159,3 +159,47 @@ def rand_history(rng, n, boundary_p=0.2, allow_copy=True):
         elif op[0] in ("copy", "move") and op[2] not in existing:
             existing.append(op[2])
     return ops
+
+
+def hx(s):
+    return s.encode().hex() if s else "-"
+
+
+def show_dump(d):
+    """the canonical text the Lean drivers print for a listing (`showListing`)"""
+    def key(p):
+        return [] if p == "/" else p.strip("/").split("/")
+    ents = []
+    for p in sorted(d, key=key):
+        kind, val, attrs = d[p]
+        kd = "G" if kind == "group" else "D=" + val
+        ents.append("%s:%s[%s]" % (hx(p), kd, ",".join("%s=%s" % (hx(k), attrs[k]) for k in sorted(attrs))))
+    return "T " + ";".join(ents)
+
+
+def show_skel(d):
+    def key(p):
+        return [] if p == "/" else p.strip("/").split("/")
+    return "S " + ";".join("%s:%s[%s]" % (hx(p), "G" if d[p][0] == "group" else "D", ",".join(hx(k) for k in sorted(d[p][2]))) for p in sorted(d, key=key))
+
+
+def op_line(op):
+    """driver line for an op of the alphabet"""
+    k = op[0]
+    if k == "patch":
+        return "patch"
+    if k == "set":
+        return "set %s %s" % (hx(op[1]), op[2])
+    if k in ("grp", "del"):
+        return "%s %s" % (k, hx(op[1]))
+    if k == "sattr":
+        return "sattr %s %s %s" % (hx(op[1]), hx(op[2]), op[3])
+    if k == "dattr":
+        return "dattr %s %s" % (hx(op[1]), hx(op[2]))
+    if k in ("copy", "move"):
+        return "%s %s %s" % (k, hx(op[1]), hx(op[2]))
+    raise ValueError(op)
+
+
+def oc(r):
+    return "ok" if r == "ok" else "err"
